@@ -16,8 +16,11 @@ from mc import explore, report
 from mc.env import appenv, ezspenv
 from mc.vloop import VLoop
 
-APS_ACK_TIMEOUT = 120.0
-RETRY_DELAYS = [0.5, 1.0, 1.5]
+from mc import tunables
+
+# "the fixed number of spaced retries" / the confirmation timeout: values are bellows' tunables, not fixed by the property
+APS_ACK_TIMEOUT = tunables.aps_ack_timeout()
+RETRY_DELAYS = tunables.retry_delays()
 EPS = 1e-9
 KNOWN = {0x1111: bytes([1, 2, 3, 4, 5, 6, 7, 8]), 0x2222: bytes([2, 2, 3, 4, 5, 6, 7, 8])}
 
@@ -76,7 +79,7 @@ class World:
         self.frames = []             # request log: (name, owner pkt idx or None, args)
         self.pkts = [Pkt(i, k) for i, k in enumerate(params["kinds"])]
         self.last_confirm = None
-        self.left = {"busy": 3, "refuse": 1, "cfail": 1, "ftag": 1, "fdest": 1, "dup": 1, "unsol": 1, "early": 1, "T": 2, "cancel": 1, "miss": 1}
+        self.left = {"busy": len(RETRY_DELAYS), "refuse": 1, "cfail": 1, "ftag": 1, "fdest": 1, "dup": 1, "unsol": 1, "early": 1, "T": 2, "cancel": 1, "miss": 1}
         self.left.update(params.get("budget", {}))
         self.ended = False
         self.aps_seq = 0x30
@@ -417,8 +420,10 @@ class World:
             if s == "ok":
                 break
         else:
-            if len(statuses) >= len(RETRY_DELAYS) and all(s.startswith("busy") for s in statuses[:3]):
-                return ("error", p.sends[2][0] + RETRY_DELAYS[2])
+            n = len(RETRY_DELAYS)
+            if len(statuses) >= n and all(s.startswith("busy") for s in statuses[:n]):
+                # after the last busy answer: at once, or after one more (useless) delay -- the property does not say
+                return ("error", (p.sends[n - 1][0], p.sends[n - 1][0] + RETRY_DELAYS[n - 1]))
             return None
         if not p.is_unicast:
             return ("ok", p.accepted_at)
@@ -442,10 +447,14 @@ class World:
                                      f"(sends {p.sends}, confirmation {p.confirm})")
                 elif got[0] != exp[0]:
                     self.viol.append(f"{p.kind}: send_packet ended with {got}, expected {exp[0]} (enqueue answers {[s for _, s in p.sends]}, own confirmation {p.confirm})")
-                elif exp[1] is not None and abs(p.t_done - exp[1]) > EPS:
+                elif isinstance(exp[1], tuple) and not (exp[1][0] - EPS <= p.t_done <= exp[1][1] + EPS):
+                    self.viol.append(f"{p.kind}: send_packet ended with {got[0]} at {p.t_done:.3f}s, expected between {exp[1][0]:.3f}s and {exp[1][1]:.3f}s")
+                elif exp[1] is not None and not isinstance(exp[1], tuple) and abs(p.t_done - exp[1]) > EPS:
                     self.viol.append(f"{p.kind}: send_packet ended with {got[0]} at {p.t_done:.3f}s, expected at {exp[1]:.3f}s")
                 elif got[0] == "error" and p.mode != "ieee-unknown" and got[1] != "DeliveryError":
                     self.viol.append(f"{p.kind}: send_packet raised {got[1]}, expected a delivery error")
+            elif not p.task.done() and exp is not None and isinstance(exp[1], tuple) and self.loop.time() < exp[1][1] - EPS:
+                pass    # still inside the allowed window
             elif not p.task.done() and exp is not None and not self.queue:
                 self.viol.append(f"{p.kind}: send_packet still pending, expected {exp[0]}")
                 p.judged = True
